@@ -18,6 +18,11 @@ type verifFileInfo struct{ dir bool }
 func (fi verifFileInfo) IsDir() bool { return fi.dir }
 
 func verifStat(p string) (verifFileInfo, error) {
+	if verifConc {
+		// in the C09 thread templates a file system access is a piece of the request's work in flight
+		c09Mark("body_begin")
+		c09Mark("body_end")
+	}
 	if _, ok := verifFiles[p]; ok {
 		return verifFileInfo{}, nil
 	}
